@@ -1,22 +1,13 @@
 /-
-The first content of an empty page is always accepted in the footnote model, *provided no footnote has
-`footnote-policy: block`* (with that policy the paragraph may be aborted on an empty page, and the
-`assert root_box` of `make_page` fails: see `Witness/C01Foot.lean`).
+The first content of an empty page is always accepted in the footnote model, whatever the footnote policies
+(before repair 67bf2ca `footnote-policy: block` could abort a paragraph on an empty page and the `assert root_box`
+of `make_page` failed; the regression example is in `Witness/C01Foot.lean`).
 -/
 import WpModel.Lemmas.FootConservePara
 import WpModel.Lemmas.FootConserveBox
 
 namespace Wp.PMF
 open Wp Wp.PM
-
-mutual
-def NoBlockPolicy : FootBox → Prop
-  | .para _ _ _ _ calls => ∀ c ∈ calls, c.policy ≠ .block
-  | .block _ _ kids => NoBlockPolicyList kids
-def NoBlockPolicyList : List FootBox → Prop
-  | [] => True
-  | b :: bs => NoBlockPolicy b ∧ NoBlockPolicyList bs
-end
 
 theorem finish_someF (c : Ctx) (st : PStyle) (b : BoxSt) (isStart : Bool) (bs : Rat)
     (cwc dbd : Bool) (resume : Option Resume) (posY : Rat) (adjL cur : List Rat) (curIsL : Bool)
@@ -71,38 +62,35 @@ theorem conclude_not_abortedF (index : Nat) (pb : Brk) (child : PBox) (s : KidsL
     · simp [hne]
 
 mutual
-theorem box_someF : (box : FootBox) → NoBlockPolicy box → ∀ (c : FCtx) (idx : Nat) (y bs : Rat)
+theorem box_someF : (box : FootBox) → ∀ (c : FCtx) (idx : Nat) (y bs : Rat)
     (skip : Option Resume) (cb : Bool) (adjL : List Rat) (fs : FState),
     (layoutBoxF c box idx y bs skip cb true adjL fs).r.frag.isSome = true
   | .para id n lineH st calls => by
-    intro hnb c idx y bs skip cb adjL fs
-    simp only [NoBlockPolicy] at hnb
+    intro c idx y bs skip cb adjL fs
     simp only [layoutBoxF, finishParaF_r]
-    exact finishPara_someF _ _ _ _ _ _ _ (lineboxF_no_abort _ _ _ _ _ _ _ _ _ _ _ _ hnb)
+    exact finishPara_someF _ _ _ _ _ _ _ (lineboxF_no_abort _ _ _ _ _ _ _ _ _ _ _ _)
   | .block id st kids => by
-    intro hnb c idx y bs skip cb adjL fs
-    simp only [NoBlockPolicy] at hnb
+    intro c idx y bs skip cb adjL fs
     simp only [layoutBoxF, finishBlockF_r]
-    exact finishBlock_someF _ _ _ _ _ _ (fun page s => kidsF_not_aborted kids hnb _ _ _ _ _ _ _ page s)
-theorem kidsF_not_aborted : (kids : List FootBox) → NoBlockPolicyList kids → ∀ (c : FCtx) (st : PStyle)
+    exact finishBlock_someF _ _ _ _ _ _ (fun page s => kidsF_not_aborted kids _ _ _ _ _ _ _ page s)
+theorem kidsF_not_aborted : (kids : List FootBox) → ∀ (c : FCtx) (st : PStyle)
     (index skipIdx : Nat) (bs : Rat) (s : KidsLoop) (fs : FState) (page : String) (s' : KidsLoop),
     (layoutKidsF c st kids index skipIdx bs true s fs).1 ≠ .aborted page s'
   | [] => by
-    intro _ c st index skipIdx bs s fs page s'
+    intro c st index skipIdx bs s fs page s'
     simp [layoutKidsF]
   | child :: rest => by
-    intro hnb c st index skipIdx bs s fs page s'
-    simp only [NoBlockPolicyList] at hnb
+    intro c st index skipIdx bs s fs page s'
     unfold layoutKidsF
     split
-    · exact kidsF_not_aborted rest hnb.2 _ _ _ _ _ _ _ _ _
+    · exact kidsF_not_aborted rest _ _ _ _ _ _ _ _ _
     · dsimp only
       split
       · simp
       · simp only [Bool.true_and]
         cases hne : s.newChildren.isEmpty with
         | true =>
-          have hsome := box_someF child hnb.1 c index s.posY bs s.skip st.isRoot s.cur fs
+          have hsome := box_someF child c index s.posY bs s.skip st.isRoot s.cur fs
           obtain ⟨f, y', hk, _⟩ := firstPass_keepsF
             (ctxOf c (layoutBoxF c child index s.posY bs s.skip st.isRoot true s.cur fs).fs) bs s.posY _ hsome
           rw [hk]
@@ -113,7 +101,7 @@ theorem kidsF_not_aborted : (kids : List FootBox) → NoBlockPolicyList kids →
             simp only at hcontra
             subst hcontra
             exact conclude_not_abortedF _ _ _ _ _ _ (Or.inl rfl) _ _ _ heq
-          · exact kidsF_not_aborted rest hnb.2 _ _ _ _ _ _ _ _ _
+          · exact kidsF_not_aborted rest _ _ _ _ _ _ _ _ _
         | false =>
           split
           · split
@@ -123,7 +111,7 @@ theorem kidsF_not_aborted : (kids : List FootBox) → NoBlockPolicyList kids →
               subst hcontra
               refine conclude_not_abortedF _ _ _ _ _ _ (Or.inr ?_) _ _ _ heq
               simpa using hne
-            · exact kidsF_not_aborted rest hnb.2 _ _ _ _ _ _ _ _ _
+            · exact kidsF_not_aborted rest _ _ _ _ _ _ _ _ _
           · split
             · rename_i out s3 heq
               intro hcontra
@@ -131,7 +119,7 @@ theorem kidsF_not_aborted : (kids : List FootBox) → NoBlockPolicyList kids →
               subst hcontra
               refine conclude_not_abortedF _ _ _ _ _ _ (Or.inr ?_) _ _ _ heq
               simpa using hne
-            · exact kidsF_not_aborted rest hnb.2 _ _ _ _ _ _ _ _ _
+            · exact kidsF_not_aborted rest _ _ _ _ _ _ _ _ _
 end
 
 end Wp.PMF
